@@ -33,6 +33,11 @@ package main
 // when every placeholder is replaced by hand are started on real Apps under the same configuration and must end the same way
 // (placeholder-as-written); replacement texts carry `#{…}` expressions.
 //
+// Sources merged after the start (scenario `R …`, sub_placeholder_reload.go): on the library's DEFAULT configure tags are resolved,
+// documents are merged through the public API (SetConfig / AddLoaders + Initialize), the same tags are resolved again - also in
+// a LazyInit component fetched after the merge; the second resolution is judged under the configured values as they are then
+// (placeholder-merge-stale / placeholder-merge-current).
+//
 // Histories (scenario `H …`, see the section "histories" below): tags are resolved, paths of the configuration are changed
 // with Configure.Set, the same tags are resolved again on fresh properties; the second resolution is judged like a first
 // one under the CURRENT configuration (placeholder-set-stale / placeholder-set-current).
@@ -757,6 +762,10 @@ func phReplay(scn string, w *hx.Writer) {
 		phWrittenReplay(f, w)
 		return
 	}
+	if len(f) > 0 && f[0] == "R" {
+		phReloadReplay(f, w)
+		return
+	}
 	if len(f) < 2 {
 		return
 	}
@@ -799,6 +808,7 @@ func phCfgOf(kv ...any) *cval {
 }
 
 func phCorpus(w *hx.Writer) {
+	defer phReloadCorpus(w)  // (ninth round) sources merged after the start, on the default configure; runs last
 	defer phWrittenCorpus(w) // (eighth round) runs after every other corpus case
 	defer phTextCorpus(w)
 	defer phHistCorpus(w)
@@ -1483,6 +1493,9 @@ func phGen(rng *hx.Rng, n int, tier string, w *hx.Writer) {
 	// … and (eighth round) tags whose replacement texts carry expressions, each started on a real App as written and as it
 	// reads with every placeholder replaced by hand (scenario `W`, sub_placeholder_written.go)
 	phGenWritten(rng.Fork(), (n+11)/12, w)
+	// … and (ninth round) histories of SOURCES on the library's default configure: tags resolved, documents merged after the
+	// start (SetConfig / AddLoaders + Initialize), the same tags resolved again (scenario `R`, sub_placeholder_reload.go)
+	phGenReload(rng.Fork(), (n+11)/12, w)
 }
 
 // ---------------------------------------------------------------- histories
